@@ -1,99 +1,6 @@
-// ===== prelude/vecmath_assumed.rs (hand written => ASSUMED contracts for algebra/vecmath.rs) =====
-// The bodies in src/algebra/vecmath.rs are closure / fold / zip based and outside the Verus subset.
-// Their contracts are ASSUMED here (listed in the evidence); bounded Kani harnesses cross-check
-// instances of them on the real code (C16, thorough tier).
-// Element-wise operations are specified exactly (entry by entry, in terms of the float symbols);
-// reductions are uninterpreted functions of the operand sequences.
-pub uninterp spec fn vm_dot(a: Seq<F>, b: Seq<F>) -> F;
-pub uninterp spec fn vm_norm(a: Seq<F>) -> F;
-pub uninterp spec fn vm_norm_inf(a: Seq<F>) -> F;
-pub uninterp spec fn vm_norm_scaled(a: Seq<F>, b: Seq<F>) -> F;
-pub uninterp spec fn vm_sumsq(a: Seq<F>) -> F;
-pub uninterp spec fn vm_norm_inf_scaled(a: Seq<F>, b: Seq<F>) -> F;
-pub uninterp spec fn vm_minimum(a: Seq<F>) -> F;
-pub uninterp spec fn vm_maximum(a: Seq<F>) -> F;
-pub uninterp spec fn vm_mean(a: Seq<F>) -> F;
-pub uninterp spec fn vm_is_finite(a: Seq<F>) -> bool;
-
-pub trait VectorMath {
-    spec fn vw(&self) -> Seq<F>;
-    // copy_from_slice: panics on a length mismatch
-    fn copy_from(&mut self, src: &Self) -> (r: &mut Self)
-        requires old(self).vw().len() == src.vw().len(),
-        ensures r.vw() == src.vw(), final(self).vw() == final(r).vw();
-    fn set(&mut self, c: F) -> (r: &mut Self)
-        ensures r.vw().len() == old(self).vw().len(),
-            forall|i: int| 0 <= i < old(self).vw().len() ==> #[trigger] r.vw()[i] == c,
-            final(self).vw() == final(r).vw();
-    fn scale(&mut self, c: F) -> (r: &mut Self)
-        ensures r.vw().len() == old(self).vw().len(),
-            forall|i: int| 0 <= i < old(self).vw().len() ==> #[trigger] r.vw()[i] == f_mul(old(self).vw()[i], c),
-            final(self).vw() == final(r).vw();
-    fn negate(&mut self) -> (r: &mut Self)
-        ensures r.vw().len() == old(self).vw().len(),
-            forall|i: int| 0 <= i < old(self).vw().len() ==> #[trigger] r.vw()[i] == f_neg(old(self).vw()[i]),
-            final(self).vw() == final(r).vw();
-    fn recip(&mut self) -> (r: &mut Self)
-        ensures r.vw().len() == old(self).vw().len(),
-            forall|i: int| 0 <= i < old(self).vw().len() ==> #[trigger] r.vw()[i] == f_recip(old(self).vw()[i]),
-            final(self).vw() == final(r).vw();
-    fn translate(&mut self, c: F) -> (r: &mut Self)
-        ensures r.vw().len() == old(self).vw().len(),
-            forall|i: int| 0 <= i < old(self).vw().len() ==> #[trigger] r.vw()[i] == f_add(old(self).vw()[i], c),
-            final(self).vw() == final(r).vw();
-    // applies op to every element in place
-    fn scalarop<OP: Fn(F) -> F>(&mut self, op: OP) -> (r: &mut Self)
-        requires forall|x: F| #![trigger op.requires((x,))] op.requires((x,)),
-        ensures r.vw().len() == old(self).vw().len(),
-            forall|i: int| 0 <= i < old(self).vw().len() ==> op.ensures((old(self).vw()[i],), #[trigger] r.vw()[i]),
-            final(self).vw() == final(r).vw();
-    // zip: silently stops at the shorter operand
-    fn scalarop_from<OP: Fn(F) -> F>(&mut self, op: OP, v: &Self) -> (r: &mut Self)
-        requires forall|x: F| #![trigger op.requires((x,))] op.requires((x,)),
-        ensures r.vw().len() == old(self).vw().len(),
-            forall|i: int| 0 <= i < old(self).vw().len() ==>
-                (if i < v.vw().len() { op.ensures((v.vw()[i],), #[trigger] r.vw()[i]) } else { r.vw()[i] == old(self).vw()[i] }),
-            final(self).vw() == final(r).vw();
-    fn rsqrt(&mut self) -> (r: &mut Self)
-        ensures r.vw().len() == old(self).vw().len(),
-            forall|i: int| 0 <= i < old(self).vw().len() ==> #[trigger] r.vw()[i] == f_recip(f_sqrt(old(self).vw()[i])),
-            final(self).vw() == final(r).vw();
-    // zip: silently stops at the shorter operand
-    fn hadamard(&mut self, y: &Self) -> (r: &mut Self)
-        ensures r.vw().len() == old(self).vw().len(),
-            forall|i: int| 0 <= i < old(self).vw().len() ==> #[trigger] r.vw()[i] ==
-                (if i < y.vw().len() { f_mul(old(self).vw()[i], y.vw()[i]) } else { old(self).vw()[i] }),
-            final(self).vw() == final(r).vw();
-    // assert_eq! on the lengths
-    fn axpby(&mut self, a: F, x: &Self, b: F) -> (r: &mut Self)
-        requires old(self).vw().len() == x.vw().len(),
-        ensures r.vw().len() == old(self).vw().len(),
-            forall|i: int| 0 <= i < old(self).vw().len() ==> #[trigger] r.vw()[i] ==
-                f_add(f_mul(a, x.vw()[i]), f_mul(b, old(self).vw()[i])),
-            final(self).vw() == final(r).vw();
-    fn waxpby(&mut self, a: F, x: &Self, b: F, y: &Self) -> (r: &mut Self)
-        requires old(self).vw().len() == x.vw().len(), old(self).vw().len() == y.vw().len(),
-        ensures r.vw().len() == old(self).vw().len(),
-            forall|i: int| 0 <= i < old(self).vw().len() ==> #[trigger] r.vw()[i] ==
-                f_add(f_mul(a, x.vw()[i]), f_mul(b, y.vw()[i])),
-            final(self).vw() == final(r).vw();
-    fn dot(&self, y: &Self) -> (r: F) ensures r == vm_dot(self.vw(), y.vw());
-    fn sumsq(&self) -> (r: F) ensures r == vm_sumsq(self.vw());
-    fn norm(&self) -> (r: F) ensures r == vm_norm(self.vw());
-    fn norm_inf(&self) -> (r: F) ensures r == vm_norm_inf(self.vw());
-    // assert_eq! on the lengths
-    fn norm_scaled(&self, v: &Self) -> (r: F)
-        requires self.vw().len() == v.vw().len(),
-        ensures r == vm_norm_scaled(self.vw(), v.vw());
-    // assert_eq! on the lengths
-    fn norm_inf_scaled(&self, v: &Self) -> (r: F)
-        requires self.vw().len() == v.vw().len(),
-        ensures r == vm_norm_inf_scaled(self.vw(), v.vw());
-    fn minimum(&self) -> (r: F) ensures r == vm_minimum(self.vw());
-    fn maximum(&self) -> (r: F) ensures r == vm_maximum(self.vw());
-    fn mean(&self) -> (r: F) ensures r == vm_mean(self.vw());
-    fn is_finite(&self) -> (r: bool) ensures r == vm_is_finite(self.vw());
-}
+// ===== prelude/vecmath_assumed.rs : the VectorMath contracts (prelude/vecmath_contract.rs) with bodies left out =====
+// The bodies are verified against the same trait in unit `vecmath` (those the unit covers; the evidence lists the rest).
+//@include prelude/vecmath_contract.rs
 impl VectorMath for [F] {
     open spec fn vw(&self) -> Seq<F> { self@ }
     #[verifier::external_body] fn copy_from(&mut self, src: &[F]) -> (r: &mut Self) { unimplemented!() }
